@@ -27,6 +27,10 @@ def run_cfg(prop, cfg, repo):
     """returns (cfg, obs, info) or raises"""
     path, wall = extract.extract(cfg, repo=repo)
     fb = FactBase(path)
+    try:
+        os.unlink(path)
+    except OSError:
+        pass
     model = Model(fb)
     ctx = RuleCtx(prop, cfg, fb, model)
     spec = props.PROPS[prop]
@@ -136,4 +140,12 @@ def main():
 
 
 if __name__ == "__main__":
-    sys.exit(main())
+    try:
+        rc = main()
+    except SystemExit:
+        raise
+    except BaseException:
+        # never let a checker crash look like a verdict
+        print("INFRA: checker crashed:\n" + traceback.format_exc()[-1500:])
+        rc = 2
+    sys.exit(rc)
